@@ -19,7 +19,14 @@ let () =
         let input = String.sub line 0 idx in
         let impl = String.sub line (idx + 4) (String.length line - idx - 4) in
         let model = try Drv.run input with e -> "MODEL-EXN:" ^ Printexc.to_string e in
-        (match Drv.judge input impl model with
+        let is_pref p = String.length impl >= String.length p && String.sub impl 0 (String.length p) = p in
+        let verdict =
+          (* the harness runs every case in a child process: the implementation died (abort, stack
+             overflow, memory limit) or did not return within the per-case time limit on this input *)
+          if is_pref "abort:" || is_pref "timeout:" then
+            Violation ("abort", "the implementation did not return on this input (" ^ impl ^ ")")
+          else Drv.judge input impl model in
+        (match verdict with
          | Agree -> incr agree
          | Mismatch why ->
            incr diff; Printf.printf "DIFF\t%d\t%s\t%s\timpl=%s\tmodel=%s\n" !n why input impl model
